@@ -8,7 +8,7 @@ from mc.report import Run, jhash
 from mc.space import explore
 
 PROP = "C07"
-RULE = ("every program of the selector grammar up to size class 3 (4 in thorough) x 9 records x {interpreted, compiled} against "
+RULE = ("every program of the selector grammar up to size class 3 (4 in thorough) x 10 records x {interpreted, compiled} against "
         "CPython eval of the same text over a plain namespace (mc.refsel) with eager definedness of all sub-expressions; a "
         "(program, record) pair is non-trivial when the reference is defined; distinct = distinct program text")
 
@@ -21,6 +21,7 @@ def records():
             _RECS.append(recs.build_record(r))
         from flow.record import GroupedRecord
 
+        _RECS.insert(1, recs.build_record(selgrammar.SAME_NAME_OTHER_FIELDS))
         other = recs.build_record(recs.rs("sel/other", [["string", "o"], ["varint", "n"]], ["'other'", "77"]))
         _RECS.append(GroupedRecord("sel/grouped", [recs.build_record(selgrammar.RECORDS[0]), other]))
     return _RECS
@@ -69,7 +70,7 @@ def features(expr):
 def has_bare_constructor(expr):
     tree = ast.parse(expr, mode="eval")
     for node in ast.walk(tree):
-        if isinstance(node, ast.Call) and isinstance(node.func, ast.Name) and node.func.id in refsel.TYPE_NAMES:
+        if isinstance(node, ast.Call) and isinstance(node.func, ast.Name) and (node.func.id in refsel.TYPE_NAMES or node.func.id == "fields"):
             return True
     return False
 
